@@ -72,11 +72,13 @@ fn run(ctx: &RunCtx) -> Report {
     let honest: Vec<usize> = (0..n_peers).filter(|i| !byz.contains(i)).collect();
     // 1 run in 4: the Byzantine peers also lie about the reader's address - they all report the
     // address of one of them (what a node believes about its own address is remotely influenced)
+    let mut liar: Option<SocketAddrV4> = None;
     if rng.chance(1, 4) {
         let liar_addr = addrs[byz[0]];
         for b in &byz {
             rawnet.with_peer(*b, |p| p.ip_vote = Some(liar_addr));
         }
+        liar = Some(liar_addr);
         report.probe("byzantine_address_votes", 1);
     }
 
@@ -335,8 +337,41 @@ fn run(ctx: &RunCtx) -> Report {
     spec.server_mode = rng.chance(1, 3);
     let nboot = rng.usize(1, n_peers.min(3));
     spec.bootstrap = addrs[..nboot].iter().map(|a| a.to_string()).collect();
+    // 1 run in 4 (own random stream): a *listener-less lookup first* - get_closest_nodes(t) (a lookup nobody reads
+    // values from, like the lookup in front of a put) is started for the immutable target and get_immutable(t)
+    // joins it 20..450 ms later; a sleeper peer (answers the bootstrap, then falls silent) is in the reader's
+    // table, so every lookup stays open for a request timeout. Whatever the first lookup collected and replays
+    // to the late joiner must have been verified.
+    let mut prng = Rng::new(crate::rng::key(ctx.seed, &[crate::rng::tag("c02-prelookup")]));
+    let prelookup = prng.chance(1, 4);
+    let mut sleeper: Option<usize> = None;
+    if prelookup {
+        let mut p = Peer::new(prng.id(), SocketAddrV4::new(if public { pub_ip(&mut prng) } else { priv_ip(40) }, 6881));
+        p.k = 20;
+        p.knows = (0..n_peers).collect();
+        let a = p.addr;
+        sleeper = Some(rawnet.add(&sim, p));
+        spec.bootstrap.push(a.to_string());
+        report.probe("listener_less_lookup_first_runs", 1);
+    }
     let reader = sim.add_node(spec);
     sim.run_for(3 * SEC);
+    if let Some(i) = sleeper {
+        rawnet.with_peer(i, |p| p.silent = true);
+    }
+    // the address the Byzantine peers voted for "confirms itself": it pings the reader (claiming the reader's id
+    // or any id), as the reader's own confirming self-ping would look - the reader may now believe that this
+    // address is its own, reachable, public address. Nothing that address sends later is any more trustworthy.
+    if let Some(la) = liar {
+        sim.want_snapshot(reader);
+        sim.run_for(600 * MS);
+        let rid = sim.snapshot(reader).map(|s| s.id).unwrap_or([0; 20]);
+        for j in 0..2u32 {
+            sim.raw_send(la, sim.node_addr(reader), krpc::query(&krpc::tid_bytes(9100 + j), "ping", krpc::ping_args(&rid), &crate::krpc::MsgOpts::default()));
+            sim.run_for(300 * MS);
+        }
+        report.probe("voted_address_pings_the_reader", 1);
+    }
 
     // calls (some concurrently)
     let concurrent = rng.chance(1, 2);
@@ -358,6 +393,10 @@ fn run(ctx: &RunCtx) -> Report {
     rng.shuffle(&mut order);
     let ncalls = rng.usize(1, 7);
     for w in order.iter().take(ncalls) {
+        if prelookup && *w == 0 {
+            let _ = sim.get_closest_nodes(reader, imm_target);
+            sim.run_for(prng.range(20, 450) * MS);
+        }
         issue(&sim, *w, &mut ops);
         if !concurrent {
             let id = ops.last().unwrap().1;
